@@ -8,6 +8,26 @@ CLAIMED = {
          "7.C01", "Coq proof (induction over keys/lists) + extracted-model correspondence"),
  "C02": ("Coq theorems: scanner soundness/completeness for the whole PEP 440 surface grammar, Version(str(v)) = v for unbounded components, public/base_version, canonicalize_version complete invariant/idempotent/reparse/pass-through; tied to the code by differential runs on spellings and mutations",
          "7.C02", "Coq proof (parser soundness+completeness, round trip) + extracted-model correspondence"),
+ "C03": ("Coq theorem: for every operator and every admitted version form, the string-level model of Specifier.contains (the _compare_* methods as written: re-parsing of public/base strings, canonicalize_version, _version_split/_pad_version/_version_join) equals the declarative PEP 440 operator semantics on structured versions; tied to the code by differential runs of contains() on operator x spelling x related candidates, against both the code model and the declarative semantics",
+         "7.C03", "Coq proof (model = declarative semantics) + extracted-model correspondence"),
+ "C04": ("Coq theorems: != is the complement of ==, ~= is >= and prefix, equal candidates and local labels are irrelevant for every operator but ===, closure/cover/containment/exclusion laws; plus each law evaluated directly on real Specifier objects for jointly generated related tuples",
+         "7.C04", "Coq proof of the laws on the model + direct law oracles on the implementation"),
+ "C12": ("Coq theorems: soundness of both scanners w.r.t. the PEP 440 grammar (accepted => rendering of a well-formed parse tree; operator/form table), ASCII-only, completeness on greedy-normal-form spellings; the acceptance languages are compared with the implementation over bounded-exhaustive strings on class-representative alphabets and generated/mutated inputs; the remaining completeness half is tested, not proved (stated in the file)",
+         "7.C12", "Coq proof (scanner soundness / gnf-completeness) + bounded-exhaustive correspondence"),
+ "C13": ("Coq theorems for all strings: canonicalize_name is the run-collapse + lower-case fold (characterisation, shape, idempotence, same canonical form iff equal after folding), validate=True accepts exactly the core-metadata name language, is_normalized_name iff valid and fixed point; tied to the code by bounded-exhaustive and structured name streams and per-code-point sweeps of the regex/str.lower tables",
+         "7.C13", "Coq proof (string induction) + extracted-model correspondence incl. exhaustive sweeps"),
+ "C14": ("Coq theorems: wheel/sdist encode-decode round trips (canonical name, identical version, build tuple, cartesian product of tags), parse_tag(str(t)) = {t}, Tag case-insensitivity, each rejection class gives the documented error and nothing else; tied to the code by encode/decode correspondence on generated components and structural damage",
+         "7.C14", "Coq proof (round trip / rejection lemmas) + extracted-model correspondence"),
+ "C10": ("Coq theorems: Version equality is an equivalence, equal versions have identical keys (hence equal hashes) and are interchangeable in every comparison; Specifier equality/hash are functions of the canonical key and equal specifiers match the same candidates under every pre-release setting (through the denotation of the canonical text); for all six types the laws are also evaluated directly on real objects built from spelling/zero/case/order/normalisation variants; the SpecifierSet/Marker/Requirement/Tag theorems live with their own models",
+         "7.C10", "Coq proof (key functions, congruence) + direct law oracles on the implementation + model correspondence of ==" ),
+ "C11": ("Coq theorems: on the modelled paths the failure points of the real code are explicit results (Escaped / FCrash / undefined int()) and are proved unreachable (Specifier.contains never escapes for accepted specifiers, every int() in Version is applied to digits, canonicalize_version total, filename parsers give a value or the documented error); every public entry point is additionally called on valid, mutated, arbitrary-Unicode and byte inputs and the class of any escaping exception is checked (testing, not proof, for the runtime part)",
+         "7.C11", "Coq proof of unreachability of modelled failure points + exception-class law oracle on malformed inputs"),
+ "C20": ("Coq theorems for what a functional model can carry (string forms built by sorting are invariant under permutation of the members; the state-machine and permutation theorems of the set, metadata and platform models); the runtime half (hash seed, call order, repetition, argument mutation) is exercised by running one call battery in separate processes under several PYTHONHASHSEED values and call orders and comparing transcripts, plus supply-order laws on real objects",
+         "7.C20", "Coq proof of permutation/history invariance on the models + multi-process transcript comparison (testing for the CPython-heap part)"),
+ "C05": ("Coq theorems on the string-level SpecifierSet model (members = first occurrences under _canonical_spec in an arbitrary permutation): conjunction incl. the empty set, invariance under permutation/duplication/spacing of clauses, & is intersection, commutative and associative incl. the override table and its error cell, & equals the parse of the concatenation, override carried, str() deterministic and reparsing to an equal set (outside the === -with-comma finding); tied to the code by stack-program correspondence runs over real Specifier/SpecifierSet objects under varying hash seeds",
+         "7.C05", "Coq proof (permutation invariance, set algebra) + extracted-model correspondence"),
+ "C06": ("Coq theorems: three-layer pre-release gate for Specifier and SpecifierSet, finals unaffected, enabling monotone, filter() is the exact filter in input order on the very input items, both fall-back cases as iff, installed=True judged by base version, outputs depend only on the latest override (induction over operation sequences), chained member filters commute; tied to the code by operation-sequence correspondence incl. item identity",
+         "7.C06", "Coq proof (state machine invariant by induction over op lists) + extracted-model correspondence"),
 }
 NA_REASON = "check not built yet in this revision (planned, see DESIGN.md section 7); nothing is claimed"
 checks, na = [], []
